@@ -93,9 +93,13 @@ fn generate_family(id: &str, run_seed: u64, _thorough: bool) -> Plan {
                 f_general(run_seed, &GeneralOpts { push: true, ..full })
             } else if pick < 82 {
                 f_lease(run_seed, &LeaseOpts { modacks: true, limits: true })
-            } else if pick < 88 {
+            } else if pick < 84 {
                 // racing creates / deletes of a few names, with publishes and a final drain
                 f_names(run_seed, 1 + pick % 3, false)
+            } else if pick < 88 {
+                // a DeleteSubscription whose client goes away half-way: if the subscription still
+                // exists afterwards it still receives what is published
+                f_delete(run_seed, false)
             } else if pick < 94 {
                 f_dupcreate(run_seed)
             } else {
@@ -109,13 +113,14 @@ fn generate_family(id: &str, run_seed: u64, _thorough: bool) -> Plan {
             } else if pick < 42 {
                 // acknowledgements inside StreamingPull control messages (mixed frames)
                 f_lease_stream(run_seed)
-            } else if pick < 45 {
-                // an acknowledgement that arrives the instant a lease runs out
+            } else if pick < 50 {
+                // an acknowledgement that arrives the instant a lease runs out, or shortly before it
+                // while the subscription actor is held up
                 f_edge(run_seed)
-            } else if pick < 53 {
+            } else if pick < 56 {
                 // acknowledgements naming more than 1000 deliveries at once
                 f_limits(run_seed, false)
-            } else if pick < 57 {
+            } else if pick < 59 {
                 f_bigbatch(run_seed)
             } else {
                 f_general(run_seed, &GeneralOpts { deletes: false, ..full })
